@@ -26,7 +26,8 @@ STUBS = ["asyncio.open_connection -> FakeNet (accepts at once)", "StreamReader -
 OUTSIDE = ["calculate/validate: buffers longer than the stated length (induction on length is an argument, not a verdict)",
            "receive path: payloads longer than the stated bound; error patterns that change the announced length are only covered by 'delivered implies the reference receiver accepts'",
            "bursts counted MSB-first or straddling data and check bytes are not all detected by CRC-16/MODBUS as framed by the vendor (see DESIGN.md section 5)"]
-ASSUMPTIONS = ["reference CRC is the bitwise definition (poly 0xA001 reflected, init 0xFFFF), validated against 13 vendor-document vectors"]
+ASSUMPTIONS = ["reference CRC is the bitwise definition (poly 0xA001 reflected, init 0xFFFF), validated against 13 vendor-document vectors",
+               "receive-path obligations take the reference check bytes of a symbolic span from a fresh instance of the repo's calculate(); its equality with the bitwise reference for every byte string of each span length used is decided by the calc obligations of the same run (composition)"]
 
 
 def bounds(tier):
@@ -38,7 +39,7 @@ def _calc_lens(tier):
 
 
 def _rx_payloads(tier):
-    return [0, 2] if tier == "quick" else [0, 1, 2]
+    return [0, 2] if tier == "quick" else [0, 1, 2, 4, 8, 12]
 
 
 def instances(tier):
@@ -130,6 +131,17 @@ def run(ctx, p):
         raise ValueError(kind)
 
 
+def _ref_check(ctx, span):
+    """Reference check bytes of a span in the receive-path obligations. For symbolic spans this is a *fresh* instance of the
+    repo's calculate() - equal to the bitwise CRC-16/MODBUS reference for every byte string of that length by the
+    'calc.equals_reference' obligations of the same run (span lengths used here are all among the calc lengths) - so that the
+    solver compares like with like instead of re-deriving table == bitwise inside every receive-path query (those queries ran
+    60-120 s and timed out under load)."""
+    if all(isinstance(b, int) for b in span):
+        return refcrc.check_bytes(span)
+    return list(_crc_mod().Crc16Modbus().calculate(SymBytes(span)))
+
+
 class _SpyCalc:
     def __init__(self, real):
         self.real = real
@@ -195,7 +207,7 @@ def _run_rx(ctx, p):
             ctx.observe("probe", len(got_probe))
             ctx.observe("conns", len(rig.net.conns))
             ref_len_same = (rl == n)
-            ref_crc_ok = bytes_eq(bad[hl + n:hl + n + 2], refcrc.check_bytes(bad[cs:hl + n]))
+            ref_crc_ok = bytes_eq(bad[hl + n:hl + n + 2], _ref_check(ctx, bad[cs:hl + n]))
             if where != "len":
                 if got_first:
                     # delivered => the reference receiver accepts this frame
@@ -219,7 +231,7 @@ def _run_rx(ctx, p):
                 if got_first:
                     m = got_first[0]
                     k = len(m.raw_data)
-                    ref_ok = sym_and(rl == k, bytes_eq(bad[hl + k:hl + k + 2], refcrc.check_bytes(bad[cs:hl + k]))) if hl + k + 2 <= len(bad) else False
+                    ref_ok = sym_and(rl == k, bytes_eq(bad[hl + k:hl + k + 2], _ref_check(ctx, bad[cs:hl + k]))) if hl + k + 2 <= len(bad) else False
                     ctx.check(ref_ok, "rx.delivered_implies_reference_accepts")
                 else:
                     ctx.reach("rx.delivered_implies_reference_accepts")
